@@ -582,6 +582,11 @@ def pure_for_def(e):
         return pure_for_def(e.test) and pure_for_def(e.body) and pure_for_def(e.orelse)
     if isinstance(e, ast.Call) and isinstance(e.func, ast.Name) and e.func.id in _DEF_PURE_FUNCS and not e.keywords:
         return all(pure_for_def(a) for a in e.args)
+    if isinstance(e, ast.Call) and isinstance(e.func, ast.Attribute) and e.func.attr in ("get", "check") and not e.keywords:
+        # dict.get / Failure.check: reads only
+        return pure_for_def(e.func.value) and all(pure_for_def(a) for a in e.args)
+    if isinstance(e, ast.Subscript):
+        return pure_for_def(e.value) and pure_for_def(e.slice)
     return False
 
 
